@@ -676,6 +676,9 @@ func (e *SpecEnv) evalCall(n *SCall) Value {
 		m := e.scalar(n.Args[0])
 		return Sc{u.mapDom(e.st.View(), m.Typ, m.T), nil}
 	case "fresh":
+		if sl, ok := e.eval(n.Args[0]).(SliceV); ok {
+			return Sc{And(Neq(sl.Arr, TNil), Cmp(">=", app("objof", SInt, sl.Arr), e.old.allocTerm())), tb}
+		}
 		s := e.scalar(n.Args[0])
 		return Sc{And(Neq(s.T, TNil), Cmp(">=", app("objof", SInt, s.T), e.old.allocTerm())), tb}
 	case "allocated":
@@ -770,6 +773,17 @@ func (e *SpecEnv) evalCall(n *SCall) Value {
 			return nr.V
 		}
 		return e.eval(n.Args[0])
+	case "disjoint", "samearray":
+		a, ok1 := e.eval(n.Args[0]).(SliceV)
+		b, ok2 := e.eval(n.Args[1]).(SliceV)
+		if !ok1 || !ok2 {
+			e.fail("%s needs two slices", n.Fun)
+		}
+		if n.Fun == "samearray" {
+			return Sc{Eq(a.Arr, b.Arr), tb}
+		}
+		// different backing arrays, or non-overlapping index ranges (empty/nil slices are disjoint from everything)
+		return Sc{Or(Neq(a.Arr, b.Arr), Cmp("<=", Arith("+", a.Off, a.Len), b.Off), Cmp("<=", Arith("+", b.Off, b.Len), a.Off), Eq(a.Len, TZero), Eq(b.Len, TZero)), tb}
 	case "nonnil":
 		var cs []Term
 		for _, a := range n.Args {
